@@ -1376,3 +1376,11 @@ PROPS["C01"]["partial_gap"] += (' Multi_handover_step_partial is ONE global step
     'through claims, GAP polls, retries and removals - a receiver still in CheckTokenPass, as in a two-station ring, is not covered by the lemma -, '
     'under a loss-free medium, a poll period small against Tslot and distinct addresses).')
 PROPS["C05"].setdefault("coq_extra", []); PROPS["C05"]["coq_extra"] += ["Properties/BusLevel.v"] if "Properties/BusLevel.v" not in PROPS["C05"]["coq_extra"] else []
+
+# ---- round-5 seeds ----
+#  C03 "the PERIPHERAL answered a diagnostics request, acknowledged Set_Prm / Chk_Cfg": the DP master only compares the
+#      address it awaits; that the delivered reply really comes from that station is the FDL admission filter
+#      (do_await_data_response), monitored as C15's reply_invalid in the fdl domain (theorem C15_delivered_reply_shape).
+#      Seeded R5-C03-2 drops the source check there: an absent peripheral is brought up by a stranger's replies.
+PROPS["C03"]["domains"] = list(PROPS["C03"]["domains"]) + ["fdl"]
+PROPS["C03"]["also"] = list(PROPS["C03"].get("also", [])) + [("C15", "reply_invalid")]
